@@ -110,7 +110,8 @@ EXC_CLASS = {"GE": GeneratorExit, "CE": asyncio.CancelledError, "E1": E1, "E1s":
 #   ci  athrow(Class, instance of Class)     bi  athrow(Base, instance of a subclass)
 #   cv  athrow(Class, 7)                     cn  athrow(Class, None)
 #   c0 / cf / ce   athrow(Class, 0) / athrow(Class, 0.0) / athrow(Class, ""): falsy values are values, not "no value"
-ATHROW_FORMS = ["ci", "bi", "cv", "cn", "ci+t", "bi+t", "cv+t", "cn+t", "i", "c", "c0", "cf", "ce", "c0+t"]
+#   cu  athrow(Class, instance of an unrelated exception class): a value like any other -> Class(instance)
+ATHROW_FORMS = ["ci", "bi", "cv", "cn", "ci+t", "bi+t", "cv+t", "cn+t", "i", "c", "c0", "cf", "ce", "c0+t", "cu", "cu+t"]
 FALSY_VALUES = {"c0": 0, "cf": 0.0, "ce": ""}
 
 
@@ -148,6 +149,10 @@ def athrow_args(op, tb=None):
         return (base, inst) + tbarg, inst, cls, ("p", 3)
     if form == "cv":
         return (cls, 7) + tbarg, None, cls, (7,)
+    if form == "cu":
+        # an exception instance that is NOT an instance of `cls` is an ordinary value: cls(instance) is raised
+        other = (E1 if tok == "E2" else E2)("u", 5)
+        return (cls, other) + tbarg, None, cls, (other,)
     if form in FALSY_VALUES:
         v = FALSY_VALUES[form]
         return (cls, v) + tbarg, None, cls, (v,)
@@ -176,8 +181,11 @@ def op_tokens(op):
     return " ".join(str(x) for x in op)
 
 
-def inline(prog):
-    """("SUBGEN", inner): the body iterates a second GeneratorObject iterator whose body `inner` yields
+def inline(prog, keep_od=False):
+    """("OD", m, d, t): `p = M[m].oob(d)` is *called*, the body really suspends (`S t`), then `await p`.  Calling
+    a coroutine function runs nothing, so the flat equivalent is `S t; O m d` (kept as a node only for the Monitor
+    body source).
+    ("SUBGEN", inner): the body iterates a second GeneratorObject iterator whose body `inner` yields
     items to that loop (`Y2 w`) and, from that depth, values to the *outer* consumer (`Y d`); the loop re-yields
     every item.  Its flat equivalent — what a native generator / the flat body model runs — is `inner` with
     `Y2 w` replaced by `L 7; Y w`."""
@@ -190,10 +198,12 @@ def inline(prog):
                     out += [("L", 7), ("Y", t[1])]
                 else:
                     out.append(t)
+        elif k == "OD" and not keep_od:
+            out += [("S", s[3]), ("O", s[1], s[2])]
         elif k == "TRY":
-            out.append(("TRY", inline(s[1]), [(c, inline(b)) for c, b in s[2]], inline(s[3])))
+            out.append(("TRY", inline(s[1], keep_od), [(c, inline(b, keep_od)) for c, b in s[2]], inline(s[3], keep_od)))
         elif k == "CALL":
-            out.append(("CALL", inline(s[1])))
+            out.append(("CALL", inline(s[1], keep_od)))
         else:
             out.append(s)
     return out
@@ -271,6 +281,12 @@ class _Src:
             self.recv(ind)
         elif k == "O":
             self.emit(ind, f"_x = await OOB({s[1]}, {s[2]})")
+            self.recv(ind)
+        elif k == "OD":
+            self.emit(ind, f"_p = OOB.make({s[1]}, {s[2]})")
+            self.emit(ind, f"_x = await tok({s[3]})")
+            self.recv(ind)
+            self.emit(ind, f"_x = await OOB.wait({s[1]}, {s[2]}, _p)")
             self.recv(ind)
         elif k == "Y":
             if self.mode == "native":
@@ -359,7 +375,7 @@ def source(prog, mode, name="body"):
        mode 'native': async def body(log, tok)                       (async generator)
        mode 'goi'   : async def body(g, log, tok)                    (coroutine for GeneratorObject)"""
     if mode != "goi":
-        prog = inline(prog)
+        prog = inline(prog, keep_od=(mode == "mon"))
     src = _Src(mode)
     args = {"mon": "M, child, log, tok, OOB, SUB, FIN", "native": "log, tok", "goi": "g, log, tok"}[mode]
     src.emit(0, f"async def {name}({args}):")
